@@ -18,7 +18,7 @@ def _c09(tier):
     for k in range(0, 15):
         jobs.append(dict(sub="compose", count=geo(k, 3000, 7, 30) * mult, fix=dict(k=k)))
     for k in range(1, 17):
-        jobs.append(dict(sub="vec", count=geo(k, 4000, 7, 30) * mult, fix=dict(k=k)))
+        jobs.append(dict(sub="vec", count=geo(k, 4000, 7, 80) * mult, fix=dict(k=k), split=(2 if k >= 15 else 1)))
     return jobs
 
 
